@@ -56,6 +56,11 @@ struct Ctx<'a> {
     /// closure signatures per fn (reported, pinned by the driver and passed back as `pinned_closure_sigs`)
     closure_sigs: Vec<(String, Vec<String>)>,
     pinned_closure_sigs: HashMap<String, Vec<String>>,
+    /// loop headers per fn with loop contracts (text from the loop keyword to its body), pinned like closure_sigs:
+    /// when a loop is inserted or removed, contracts keyed by ordinal are re-aligned (`R1.loop.realigned`); the
+    /// contract of a loop that disappeared is dropped (`R1.droppedloop`)
+    loop_sigs: Vec<(String, Vec<String>)>,
+    pinned_loop_sigs: HashMap<String, Vec<String>>,
     float: bool,
     macro_map: HashMap<String, String>,
     /// R9.method: method-call identifier renames (`x.extend(v)` -> `x.vx_extend(v)`), the target is a prelude stub
@@ -85,6 +90,15 @@ struct Ctx<'a> {
     /// R12.typemap (rules.type_map: {"<type, spaces removed>": "Replacement"}): a type written exactly like the
     /// key is replaced by a prelude façade type (e.g. `Arc<dyn Error + Send + Sync>`: Verus has no multi-trait dyn)
     type_map: HashMap<String, String>,
+    /// R14.letchain (rules.let_chains: true): an `if` WITHOUT `else` whose condition is a top-level `&&` chain
+    /// containing `let` operands, `if A && B && let P = E { S }`, becomes the nested form
+    /// `if A && B { if let P = E { S } }`: every `&&` token next to a `let` operand is replaced by `{ if` and one
+    /// ` }` per replaced token is appended after the block (Verus: "does not yet support let expressions";
+    /// rustc < edition 2024 rejects let chains). Same meaning: `&&` evaluates left to right and short-circuits,
+    /// the bindings of P are in scope in the later operands and in S, and without an `else` "condition false"
+    /// means "do nothing" at every nesting level. An `if` WITH `else` is left untouched (front-end error =
+    /// undecided, never an alarm). No line is added or removed.
+    let_chains: bool,
 }
 
 impl<'a> Ctx<'a> {
@@ -105,6 +119,8 @@ impl<'a> Ctx<'a> {
             derive_keep: None,
             closure_sigs: vec![],
             pinned_closure_sigs: HashMap::new(),
+            loop_sigs: vec![],
+            pinned_loop_sigs: HashMap::new(),
             float: false,
             macro_map: HashMap::new(),
             method_map: HashMap::new(),
@@ -117,6 +133,7 @@ impl<'a> Ctx<'a> {
             wild_seq: 0,
             closure_pats: false,
             type_map: HashMap::new(),
+            let_chains: false,
         }
     }
     fn off(&self, lc: proc_macro2::LineColumn) -> usize {
@@ -412,6 +429,44 @@ impl<'c, 'a, 'ast> Visit<'ast> for Rewriter<'c, 'a> {
         }
         visit::visit_expr_for_loop(self, e);
     }
+    fn visit_expr_if(&mut self, e: &'ast syn::ExprIf) {
+        // R14.letchain: `if A && let P = E { S }` (no else) -> `if A { if let P = E { S } }`
+        if self.cx.let_chains && e.else_branch.is_none() {
+            // flatten the left-associated top-level `&&` chain of the condition
+            let mut ops: Vec<&syn::Expr> = vec![];
+            let mut toks: Vec<Span> = vec![];
+            let mut cur: &syn::Expr = &e.cond;
+            loop {
+                match cur {
+                    syn::Expr::Binary(b) if matches!(b.op, syn::BinOp::And(_)) => {
+                        ops.push(&b.right);
+                        toks.push(b.op.span());
+                        cur = &b.left;
+                    }
+                    other => {
+                        ops.push(other);
+                        break;
+                    }
+                }
+            }
+            ops.reverse();
+            toks.reverse();
+            let is_let = |x: &syn::Expr| matches!(x, syn::Expr::Let(_));
+            if ops.len() >= 2 && ops.iter().any(|o| is_let(o)) {
+                let mut n = 0;
+                for (i, t) in toks.iter().enumerate() {
+                    if is_let(ops[i]) || is_let(ops[i + 1]) {
+                        let (a, b) = self.cx.range(*t);
+                        self.cx.push(a, b, "{ if", "R14.letchain");
+                        n += 1;
+                    }
+                }
+                let (_, be) = self.cx.range(e.then_branch.span());
+                self.cx.push(be, be, " }".repeat(n), "R14.letchain.close");
+            }
+        }
+        visit::visit_expr_if(self, e);
+    }
     fn visit_expr_binary(&mut self, e: &'ast syn::ExprBinary) {
         if self.boolops || self.cx.boolops_all {
             match &e.op {
@@ -443,6 +498,20 @@ impl<'c, 'a, 'ast> Visit<'ast> for Rewriter<'c, 'a> {
                         self.visit_expr(&e.receiver);
                         self.visit_expr(&it.receiver);
                         return;
+                    }
+                }
+            }
+        }
+        // R15.ctorfn: a datatype constructor used as a function value in argument position (`x.map(Some)`, `.map_err(Err)`)
+        // -> the eta-expanded closure `|vx_c| Some(vx_c)` with the contract "result is the constructor applied to the
+        // argument" (Verus: "using a datatype constructor as a function value" is unsupported). Same meaning.
+        for a in e.args.iter() {
+            if let syn::Expr::Path(pth) = a {
+                if pth.qself.is_none() && pth.path.segments.len() == 1 {
+                    let id = pth.path.segments[0].ident.to_string();
+                    if id == "Some" || id == "Ok" || id == "Err" {
+                        let (s0, e0) = self.cx.range(a.span());
+                        self.cx.push(s0, e0, format!("|vx_c| -> (vx_q: _) ensures equal(vx_q, {id}(vx_c)) {{ {id}(vx_c) }}"), "R15.ctorfn");
                     }
                 }
             }
@@ -711,6 +780,36 @@ impl<'ast> Visit<'ast> for StmtFinder {
 }
 
 /// collect loops of a block in pre-order (source order)
+/// Minimal edit script (substitution allowed) between a pinned and a current list of signatures:
+/// pinned ordinal -> current ordinal (None = the pinned item disappeared).
+fn align_sigs(p: &[String], cur: &[String]) -> Vec<Option<usize>> {
+    let (n, m) = (p.len(), cur.len());
+    let mut d = vec![vec![0usize; m + 1]; n + 1];
+    for i in 0..=n { d[i][0] = i; }
+    for j in 0..=m { d[0][j] = j; }
+    for i in 1..=n {
+        for j in 1..=m {
+            let sub = d[i - 1][j - 1] + if p[i - 1] == cur[j - 1] { 0 } else { 1 };
+            d[i][j] = sub.min(d[i - 1][j] + 1).min(d[i][j - 1] + 1);
+        }
+    }
+    let mut map = vec![None; n];
+    let (mut i, mut j) = (n, m);
+    while i > 0 && j > 0 {
+        let sub = d[i - 1][j - 1] + if p[i - 1] == cur[j - 1] { 0 } else { 1 };
+        if d[i][j] == sub {
+            map[i - 1] = Some(j - 1);
+            i -= 1;
+            j -= 1;
+        } else if d[i][j] == d[i - 1][j] + 1 {
+            i -= 1;
+        } else {
+            j -= 1;
+        }
+    }
+    map
+}
+
 struct LoopFinder {
     loops: Vec<(Span, Span)>, // (whole loop span, body block span)
 }
@@ -877,42 +976,73 @@ fn apply_contract(cx: &mut Ctx, f: &FnInfo, contract: Option<&Value>, mutself: b
     if let Some(suf) = c.get("body_suffix").and_then(|v| v.as_str()) {
         cx.push(be - 1, be - 1, format!("\n{}\n", suf), "R1.proof");
     }
-    if let Some(loops) = c.get("loops").and_then(|v| v.as_object()) {
+    if c.get("loops").and_then(|v| v.as_object()).is_some() || c.get("loop_ends").and_then(|v| v.as_object()).is_some() {
         let mut lf = LoopFinder { loops: vec![] };
         lf.visit_block(block);
-        for (k, v) in loops {
-            let idx: usize = match k.parse() {
-                Ok(i) => i,
-                Err(_) => {
-                    cx.errors.push(format!("{}: bad loop ordinal {}", f.key, k));
-                    continue;
+        let cur_sigs: Vec<String> = lf
+            .loops
+            .iter()
+            .map(|(whole, body)| {
+                let (ws, _) = cx.range(*whole);
+                let (bs2, _) = cx.range(*body);
+                cx.src[ws..bs2].split_whitespace().collect::<Vec<_>>().join(" ")
+            })
+            .collect();
+        cx.loop_sigs.push((f.key.clone(), cur_sigs.clone()));
+        let pinned: Option<Vec<String>> = cx.pinned_loop_sigs.get(&f.key).cloned();
+        let mapping: Option<Vec<Option<usize>>> = match &pinned {
+            Some(p) if p != &cur_sigs => Some(align_sigs(p, &cur_sigs)),
+            _ => None,
+        };
+        let blk0 = cx.range(block.span()).0;
+        let mut resolve = |cx: &mut Ctx, idx0: usize| -> Option<usize> {
+            match &mapping {
+                Some(mp) => match mp.get(idx0).copied().flatten() {
+                    Some(j) => {
+                        if j != idx0 {
+                            cx.push(blk0, blk0, "", "R1.loop.realigned");
+                        }
+                        Some(j)
+                    }
+                    None => {
+                        cx.push(blk0, blk0, "", "R1.droppedloop");
+                        None
+                    }
+                },
+                None => {
+                    if idx0 >= lf.loops.len() {
+                        cx.errors.push(format!("ANCHOR-LOST {}: loop ordinal {} not found ({} loops)", f.key, idx0, lf.loops.len()));
+                        None
+                    } else {
+                        Some(idx0)
+                    }
                 }
-            };
-            if idx >= lf.loops.len() {
-                cx.errors.push(format!(
-                    "ANCHOR-LOST {}: loop ordinal {} not found ({} loops)",
-                    f.key,
-                    idx,
-                    lf.loops.len()
-                ));
-                continue;
             }
-            let (ls, _) = cx.range(lf.loops[idx].1);
-            cx.push(ls, ls, format!("\n{}\n", v.as_str().unwrap_or("")), "R1.loop");
+        };
+        if let Some(loops) = c.get("loops").and_then(|v| v.as_object()) {
+            for (k, v) in loops {
+                let idx0: usize = match k.parse() {
+                    Ok(i) => i,
+                    Err(_) => {
+                        cx.errors.push(format!("{}: bad loop ordinal {}", f.key, k));
+                        continue;
+                    }
+                };
+                if let Some(idx) = resolve(cx, idx0) {
+                    let (ls, _) = cx.range(lf.loops[idx].1);
+                    cx.push(ls, ls, format!("\n{}\n", v.as_str().unwrap_or("")), "R1.loop");
+                }
+            }
         }
-    }
-    if let Some(loops) = c.get("loop_ends").and_then(|v| v.as_object()) {
-        // ghost code at the end of the body of loop k (before its closing brace)
-        let mut lf = LoopFinder { loops: vec![] };
-        lf.visit_block(block);
-        for (k, v) in loops {
-            let idx: usize = k.parse().unwrap_or(usize::MAX);
-            if idx >= lf.loops.len() {
-                cx.errors.push(format!("ANCHOR-LOST {}: loop ordinal {} not found ({} loops)", f.key, k, lf.loops.len()));
-                continue;
+        if let Some(loops) = c.get("loop_ends").and_then(|v| v.as_object()) {
+            // ghost code at the end of the body of loop k (before its closing brace)
+            for (k, v) in loops {
+                let idx0: usize = k.parse().unwrap_or(usize::MAX);
+                if let Some(idx) = resolve(cx, idx0) {
+                    let (_, le) = cx.range(lf.loops[idx].1);
+                    cx.push(le - 1, le - 1, format!("\n{}\n", v.as_str().unwrap_or("")), "R1.proof");
+                }
             }
-            let (_, le) = cx.range(lf.loops[idx].1);
-            cx.push(le - 1, le - 1, format!("\n{}\n", v.as_str().unwrap_or("")), "R1.proof");
         }
     }
     if let Some(ins) = c.get("inserts").and_then(|v| v.as_array()) {
@@ -1406,6 +1536,7 @@ fn main() {
     let r9_extend = rules["extend_slice"].as_bool().unwrap_or(false);
     let wild_closure = rules["wild_closure_args"].as_bool().unwrap_or(false);
     let closure_pats = rules["closure_param_patterns"].as_bool().unwrap_or(false);
+    let let_chains = rules["let_chains"].as_bool().unwrap_or(false);
     let param_patterns: HashSet<String> = rules["param_patterns"]
         .as_array()
         .map(|a| a.iter().filter_map(|v| v.as_str().map(String::from)).collect())
@@ -1467,7 +1598,7 @@ fn main() {
             cx.float = float && !sel["nofloat"].as_bool().unwrap_or(false);
             cx.macro_map = macro_map.clone();
             cx.method_map = method_map.clone(); cx.r9_extend = r9_extend;
-            cx.wild_closure = wild_closure; cx.closure_pats = closure_pats; cx.type_map = type_map.clone();
+            cx.wild_closure = wild_closure; cx.closure_pats = closure_pats; cx.type_map = type_map.clone(); cx.let_chains = let_chains;
             if kind == "lift" {
                 // R6/R8: lift a closure bound to a `let` or the body of loop k of a function into a free fn
                 let want_ty = sel["type"].as_str();
@@ -1650,6 +1781,7 @@ fn main() {
                 continue;
             }
             let it = found[nth];
+            cx.pinned_loop_sigs = rules["pinned_loop_sigs"].as_object().map(|m| m.iter().map(|(k, v)| (k.clone(), v.as_array().map(|a| a.iter().filter_map(|x| x.as_str().map(String::from)).collect()).unwrap_or_default())).collect()).unwrap_or_default();
             cx.pinned_closure_sigs = rules["pinned_closure_sigs"].as_object().map(|m| m.iter().map(|(k, v)| (k.clone(), v.as_array().map(|a| a.iter().filter_map(|x| x.as_str().map(String::from)).collect()).unwrap_or_default())).collect()).unwrap_or_default();
             cx.derive_keep = sel["derive_keep"].as_array().map(|a| a.iter().filter_map(|v| v.as_str().map(String::from)).collect());
             let (istart, iend) = cx.range(it.span());
@@ -1931,6 +2063,7 @@ fn main() {
                 "fns": fn_meta,
                 "anchor_lines": cx.anchor_lines.iter().map(|(k, a, l)| json!([k, a, l])).collect::<Vec<_>>(),
                 "closure_sigs": cx.closure_sigs.iter().map(|(k, v)| json!([k, v])).collect::<Vec<_>>(),
+                "loop_sigs": cx.loop_sigs.iter().map(|(k, v)| json!([k, v])).collect::<Vec<_>>(),
             }));
         }
     }
